@@ -64,6 +64,7 @@ def angle_ok(name, v):
 
 def run(tier, seed):
     ck = Check("C20", "model_checking", tier, seed)
+    rng = random.Random(seed)
     r = run_tlc("CMath", "CMath.cfg", workers=4, timeout=900)
     ck.add_tlc(r, "CMath: 98 Annex-G cells + 762 exact finite cases, 6 consistency invariants")
     rows = [x[1] for x in core.printed_values(r.stdout, "ROW")]
@@ -237,6 +238,7 @@ def run(tier, seed):
         if u > 2:
             ck.violation({"fn": name, "clause": "exact_point"}, "%s(%r) = %r, expected %r (%.3g ulp)" % (name, z, got, exp, u), {})
     cexp_lattice(ck, C, note)
+    symmetry_lattice(ck, C, rng)
     ck.cov["traces_validated_against_impl"] = len(rows)
     ck.notes["worst_ulp_by_kind"] = {k: (round(v, 2) if v < 1e290 else "non-finite") for k, v in worst.items()}
     for c in [rows[0], next(x for x in rows if x["kind"] == "csqrt_exact"), next(x for x in rows if x["kind"] == "double_factorial" and x["n"] == 9)]:
@@ -268,6 +270,36 @@ def _dec_sincos(y, D, ctx):
         if abs(term_c) < D(10) ** -70 and abs(term_s) < D(10) ** -70:
             break
     return s, c
+
+
+def symmetry_lattice(ck, C, rng):
+    """principal values commute with complex conjugation off the branch cuts: f(conj z) = conj f(z) bit for bit, over 600 orders of
+    magnitude; plus the exact algebraic points z^0 = 1, z^1 = z, 0^k = 0 (k > 0)"""
+    n = 0
+    for t in range(400):
+        ex, ey = rng.randint(-300, 300), rng.randint(-300, 300)
+        z = complex(rng.choice([-1, 1]) * rng.uniform(1, 2) * 2.0 ** ex, rng.choice([-1, 1]) * rng.uniform(1, 2) * 2.0 ** ey)
+        for name, f in (("csqrt", C.csqrt), ("clog", C.clog), ("cexp", lambda w: C.cexp(complex(math.copysign(min(abs(w.real), 700.0), w.real), w.imag))),
+                        ("cpow_real_exponent", lambda w: C.cpow(w, complex(0.37, 0.0))), ("cipow_3", lambda w: C.cipow(w, 3) if abs(w) < 1e100 else 0j)):
+            a, b = f(z), f(z.conjugate())
+            n += 1
+            ck.case(("conj", name, t), True)
+            same = (a.real == b.real or (a.real != a.real and b.real != b.real)) and (a.imag == -b.imag or (a.imag != a.imag and b.imag != b.imag))
+            if not same:
+                ck.violation({"fn": name.split("_")[0], "clause": "conjugate_symmetry"}, "%s(conj z) = %r but conj %s(z) = %r at z = %r" % (name, b, name, a.conjugate(), z), {"z": [z.real, z.imag]})
+    for z in (complex(2.5, -1.5), complex(-3.0, 0.25), complex(1e-200, 1e-200), complex(-1e150, 3e149)):
+        for name, got, want in (("cpow(z,0)", C.cpow(z, 0j), 1 + 0j), ("cipow(z,0)", C.cipow(z, 0), 1 + 0j), ("cipow(z,1)", C.cipow(z, 1), z), ("cpow(z,1)", C.cpow(z, 1 + 0j), z)):
+            n += 1
+            ck.case(("algebra", name, str(z)), True)
+            tol = 0.0 if name.startswith("cipow") or name == "cpow(z,0)" else 4 * ULP * abs(z)
+            if not abs(got - want) <= tol:
+                ck.violation({"fn": name.split("(")[0], "clause": "algebraic_identity"}, "%s = %r at z = %r, expected %r" % (name, got, z, want), {"z": [z.real, z.imag]})
+    for k in (1, 2, 7, 200):
+        got = C.cipow(0j, k)
+        ck.case(("algebra", "cipow(0,k)", k), True)
+        if got != 0j:
+            ck.violation({"fn": "cipow", "clause": "algebraic_identity"}, "cipow(0, %d) = %r" % (k, got), {})
+    ck.notes["symmetry_lattice_points"] = n
 
 
 def cexp_lattice(ck, C, note):
